@@ -31,7 +31,11 @@ RULE = ("cases: (a) end-to-end: abstract dataclass trees (1-5 fields, optional n
         "missing/None/value) each rendered in 5 annotation styles x {flat, 2-3 level chain (sometimes re-declaring a "
         "field)} x {module scope, function scope with the parse inside the defining call} = 20 real modules, parsed "
         "with the empty command line, 3-4 valid and 2-3 invalid command lines (bad token, wrong arity, unknown option), "
-        "all compared with the typing-style flat module-scope rendering; separate low-frequency streams for the "
+        "all compared with the typing-style flat module-scope rendering; the nested member is required, default_factory or "
+        "Optional[Child] / Union[Child, None] / Child | None = None; Enum and nested classes live in the same scope as the "
+        "outer class; function-scope modules also define module-level globals of the same names with different contents, "
+        "and the defining function is executed 3 times (every call's parses are compared, and every enum member / "
+        "dataclass instance returned must belong to the classes created by that very call); separate low-frequency streams for the "
         "recorded findings; (b) unit ops on annotation objects built directly (typing / builtin / UnionType mixes, "
         "arbitrary nesting): the utils.py classifiers, _replace_UnionType_with_typing_Union, the get_arg_options "
         "digest of a one-field dataclass; (c) the `A | B` text rewriter on generated and mangled texts; (d) string "
@@ -52,6 +56,7 @@ TRUSTED = ["CPython importlib / typing.get_type_hints / frame objects", "stdlib 
 EXHAUSTIVE = {"quick": False, "thorough": False}
 SERIAL = False
 
+N_AGAIN = 2          # further executions of the defining function per function-scope rendering
 STYLES = ["typing", "builtin", "pep604", "post_typing", "post_604"]
 LAYOUTS = ["flat", "chain"]
 SCOPES = ["module", "function"]
@@ -291,6 +296,11 @@ def mk_tree(rng, stream="grammar"):
                  "default": None}
         if child["dflt"] == "value":
             child["default"] = "field(default_factory=Child)"
+        if rng.random() < 0.45:
+            # an optional nested dataclass member: Optional[Child] / Union[Child, None] / Child | None, default None
+            child = {"name": "kid", "ty": {"k": "opt", "inner": {"k": "dc", "cls": "Child"},
+                                           "spell": rng.choice(["optional", "union"])}, "dflt": "none",
+                     "default": "None"}
         fields.insert(rng.randrange(len(fields) + 1), child)
     fields = order_fields(fields)
     # chain: contiguous split of the root's fields into 2-3 classes; optionally one defaulted field of an earlier
@@ -315,12 +325,21 @@ def all_leaf_fields(tree):
 
     def walk(cn):
         for f in by[cn]["fields"]:
-            if f["ty"]["k"] == "dc":
-                walk(f["ty"]["cls"])
+            if dc_of(f["ty"]):
+                walk(dc_of(f["ty"]))
             else:
                 out.append(f)
     walk(tree["root"])
     return out
+
+
+def dc_of(t):
+    """class name when t is a nested dataclass member (plain or optional)"""
+    if t["k"] == "dc":
+        return t["cls"]
+    if t["k"] == "opt" and t["inner"]["k"] == "dc":
+        return t["inner"]["cls"]
+    return None
 
 
 def mk_argvs(rng, tree):
@@ -604,6 +623,8 @@ def render_ty(t, live):
         return " | ".join(parts) if live == "pep604" else f"Union[{', '.join(parts)}]"
     if k == "opt":
         inner = render_ty(t["inner"], live)
+        if live != "pep604" and t["inner"]["k"] == "dc" and t.get("spell") == "union":
+            return f"Union[{inner}, None]"
         return f"{inner} | None" if live == "pep604" else f"Optional[{inner}]"
     raise ValueError(k)
 
@@ -643,13 +664,28 @@ def render_module(tree, style, layout, scope):
                 body += render_class(cname, base, [fmap[n] for n in names], live, ind)
                 base = cname
     root = tree["root"]
+    names = sorted(ENUMS) + [c["name"] for c in tree["classes"]]
+    ns = "dict(" + ", ".join(f"{n}={n}" for n in names) + ")"
     src = ("from __future__ import annotations\n" if style.startswith("post_") else "") + HEADER
     if scope == "module":
-        src += "\n".join(body) + f"\n\ndef run(cb):\n    return cb({root})\n"
+        src += "\n".join(body) + f"\n\ndef run(cb):\n    return cb({root}, {ns})\n"
     else:
-        src += "def run(cb):\n" + "\n".join(body) + f"\n    return cb({root})\n"
+        # module-level globals with the SAME NAMES as the function-local classes but different contents: the
+        # function-local ones must win when the postponed annotations are evaluated
+        src += DECOYS + "".join(f"@dataclass\nclass {c['name']}:\n    decoy_{i}: int = 0\n"
+                               for i, c in enumerate(tree["classes"]))
+        src += "def run(cb):\n" + "\n".join(body) + f"\n    return cb({root}, {ns})\n"
     _ = by
     return src
+
+
+DECOYS = """class Color(enum.Enum):
+    CYAN = "c"
+    MAGENTA = "m"
+class Mode(enum.Enum):
+    TRAIN = "t"
+    EVAL = "e"
+"""
 
 
 # ------------------------------------------------------------------------------------------------
@@ -734,11 +770,31 @@ def _observe_class(wrapper):
     return res
 
 
-def _run_rendering(tree, argvs, cls):
+def _foreign(v, ns, path="cfg"):
+    """paths of enum members / dataclass instances inside v whose class is not the one defined in THIS call"""
+    bad = []
+    if isinstance(v, enum.Enum) or (dataclasses.is_dataclass(v) and not isinstance(v, type)):
+        if ns.get(type(v).__name__) is not type(v):
+            bad.append(f"{path}:{type(v).__name__}")
+        if isinstance(v, enum.Enum):
+            if getattr(ns.get(type(v).__name__), v.name, None) is not v:
+                bad.append(f"{path}:{type(v).__name__}.{v.name}")
+        else:
+            for f in dataclasses.fields(v):
+                bad += _foreign(getattr(v, f.name, None), ns, f"{path}.{f.name}")
+    elif isinstance(v, (list, tuple)):
+        for i, x in enumerate(v):
+            bad += _foreign(x, ns, f"{path}[{i}]")
+    return sorted(set(bad))
+
+
+def _run_rendering(tree, argvs, cls, ns, observe=True):
     """called INSIDE the module's `run` (so the defining frame is live for function-scope renderings)"""
     import simple_parsing
 
     obs = {"raw_types": None, "setup": None, "classes": None, "parses": []}
+    if not observe:
+        return _run_parses(obs, argvs, cls, ns)
     obs["raw_types"] = {f.name: (f.type if isinstance(f.type, str) else None) for f in dataclasses.fields(cls)}
 
     def setup():
@@ -765,6 +821,12 @@ def _run_rendering(tree, argvs, cls):
 
         r2 = sp.run_outcome(partial)
         obs["classes"] = r2["value"] if r2["o"] == "ok" else None
+    return _run_parses(obs, argvs, cls, ns)
+
+
+def _run_parses(obs, argvs, cls, ns):
+    import simple_parsing
+
     for argv in argvs:
         def parse():
             sp.reset_globals()
@@ -774,7 +836,7 @@ def _run_rendering(tree, argvs, cls):
 
         r = sp.run_outcome(parse)
         if r["o"] == "ok":
-            obs["parses"].append({"o": "ok", "v": sp.cv(r["value"].cfg)})
+            obs["parses"].append({"o": "ok", "v": sp.cv(r["value"].cfg), "foreign": _foreign(r["value"].cfg, ns)})
         else:
             obs["parses"].append(_strip(r))
     return obs
@@ -798,7 +860,12 @@ def impl_e2e(c):
                         out["renderings"][rkey(style, layout, scope)] = {"import_error": type(e).__name__, "msg": str(e)[:200]}
                         continue
                     try:
-                        obs = mod.run(lambda cls: _run_rendering(tree, argvs, cls))
+                        obs = mod.run(lambda cls, ns: _run_rendering(tree, argvs, cls, ns))
+                        if scope == "function":
+                            # the defining function is executed again (fresh classes each time): every call's parses
+                            # are compared like the first one's
+                            obs["again"] = [mod.run(lambda cls, ns: _run_rendering(tree, argvs, cls, ns, observe=False))["parses"]
+                                            for _ in range(N_AGAIN)]
                     except BaseException as e:  # noqa: BLE001
                         obs = {"import_error": "run:" + type(e).__name__, "msg": str(e)[:200]}
                     out["renderings"][rkey(style, layout, scope)] = obs
@@ -951,8 +1018,29 @@ def _some_default(t):
 
 
 def tree_for_model(tree):
-    return [{"name": c["name"], "fields": [{"name": f["name"], "ty": f["ty"], "dflt": f["dflt"]} for f in c["fields"]]}
+    """an Optional nested dataclass member is sent as the plain member with a None default (the model's dataclass
+    test covers the `contains_dataclass_type_arg` arm only through the member itself)"""
+    return [{"name": c["name"], "fields": [{"name": f["name"], "ty": ({"k": "dc", "cls": dc_of(f["ty"])} if dc_of(f["ty"]) else f["ty"]),
+                                            "dflt": f["dflt"]} for f in c["fields"]]}
             for c in tree["classes"]]
+
+
+def _optdc_fields(tree):
+    return {(c["name"], f["name"]) for c in tree["classes"] for f in c["fields"] if f["ty"]["k"] == "opt" and dc_of(f["ty"])}
+
+
+def _mask_optdc(tree, classes):
+    skip = _optdc_fields(tree)
+    # inside an optional member nothing is required (the wrapper's own `required` is overridden by its parent): the
+    # model's `required` is the top-level rule, so it is not compared there
+    optional_classes = {dc_of(f["ty"]) for c in tree["classes"] for f in c["fields"] if f["ty"]["k"] == "opt" and dc_of(f["ty"])}
+    for cl in classes or []:
+        for f in cl["fields"]:
+            if cl["name"] in optional_classes and isinstance(f.get("kind"), dict) and "required" in f["kind"]:
+                f["kind"]["required"] = "not-compared"
+            if (cl["name"], f["name"]) in skip:
+                f["type"] = "optional-dataclass"
+                f["text"] = "optional-dataclass"
 
 
 def model_case(case, obs):
@@ -1006,6 +1094,7 @@ def project(case, obs):
                     texts = obs["texts"][st].get(cl["name"], [])
                     for f, tx in zip(cl["fields"], texts):
                         f["text"] = tx
+                _mask_optdc(c["tree"], v["classes"])
                 # when set-up raised inside DataclassWrapper.__init__ nothing can be observed per field
             out[st] = v
         chain_obs = obs["renderings"][rkey("typing", "chain", "module")]
@@ -1038,6 +1127,7 @@ def project_model(case, mo):
                 cl = by[cn]
                 classes.append({"name": cn, "fields": [{"name": f["name"], "type": f["type"]["ann"] if f["type"]["o"] == "ok" else f["type"],
                                                         "kind": _norm_kind(f["kind"]), "text": f["text"]} for f in cl["fields"]]})
+            _mask_optdc(case["case"]["tree"], classes)
             out[st] = {"setup": v["setup"], "classes": classes}
         return {"styles": out, "order": mo["order"]}
     if op == "annot.kind":
@@ -1052,8 +1142,8 @@ def _class_order(tree):
     def walk(cn):
         out.append(cn)
         for f in by[cn]["fields"]:
-            if f["ty"]["k"] == "dc":
-                walk(f["ty"]["cls"])
+            if dc_of(f["ty"]):
+                walk(dc_of(f["ty"]))
     walk(tree["root"])
     return out
 
@@ -1091,12 +1181,32 @@ def oracle(case, obs):
                           "argv_i": -1, "got": ["import_error", o["import_error"]], "ref": ["ok", None],
                           "detail": f"{key}: module cannot be imported/run: {o}"})
             continue
-        for i, (pr, po) in enumerate(zip(ref["parses"], o["parses"])):
-            kr, ko = _outcome_key(pr), _outcome_key(po)
-            if kr != ko:
-                fails.append({"clause": "style-invariance", "rendering": key, "style": style, "layout": layout, "scope": scope,
-                              "argv_i": i, "got": list(ko), "ref": list(kr),
-                              "detail": f"argv {c['argvs'][i]}: {key} gives {ko}, typing/flat/module gives {kr}"})
+        fails += _compare_call(c, ref, key, o["parses"], 0)
+        for n, parses in enumerate(o.get("again", []), start=1):
+            fails += _compare_call(c, ref, key, parses, n)
+    for i, pr in enumerate(ref["parses"]):
+        if pr.get("foreign"):
+            fails.append({"clause": "same-call-identity", "rendering": rkey(*REF), "style": REF[0], "layout": REF[1],
+                          "scope": REF[2], "argv_i": i, "call": 0, "got": pr["foreign"], "ref": [],
+                          "detail": f"argv {c['argvs'][i]}: reference rendering returns objects of foreign classes {pr['foreign']}"})
+    return fails
+
+
+def _compare_call(c, ref, key, parses, call):
+    style, layout, scope = key.split("/")
+    fails = []
+    for i, (pr, po) in enumerate(zip(ref["parses"], parses)):
+        kr, ko = _outcome_key(pr), _outcome_key(po)
+        if kr != ko:
+            fails.append({"clause": "style-invariance", "rendering": key, "style": style, "layout": layout, "scope": scope,
+                          "argv_i": i, "call": call, "got": list(ko), "ref": list(kr),
+                          "detail": f"argv {c['argvs'][i]} (call #{call} of the defining scope): {key} gives {ko}, "
+                                    f"typing/flat/module gives {kr}"})
+        if po.get("foreign"):
+            fails.append({"clause": "same-call-identity", "rendering": key, "style": style, "layout": layout, "scope": scope,
+                          "argv_i": i, "call": call, "got": po["foreign"], "ref": [],
+                          "detail": f"argv {c['argvs'][i]} (call #{call} of the defining scope): {key} returns enum members / "
+                                    f"dataclass instances whose classes are not the ones defined in that call: {po['foreign']}"})
     return fails
 
 
@@ -1240,7 +1350,7 @@ def gen(rng, tier):
         yield {"op": "annot.replace", "case": {"ann": a}}
         yield {"op": "annot.kind", "case": {"ann": a, "dflt": rng.choice(["missing", "value", "value", "none"])}}
     # (a) end to end
-    n = 60 if quick else 1500
+    n = 60 if quick else 1200
     for i in range(n):
         stream = "grammar"
         if i % 10 == 3:
@@ -1264,7 +1374,7 @@ def shrink(case):
     def with_root_fields(fields):
         names = [f["name"] for f in fields]
         classes = [cl if cl["name"] != tree["root"] else dict(cl, fields=fields) for cl in tree["classes"]]
-        if not any(f["ty"]["k"] == "dc" for f in fields):
+        if not any(dc_of(f["ty"]) for f in fields):
             classes = [cl for cl in classes if cl["name"] == tree["root"]]
         chain = [[n for n in seg if n in names] for seg in tree["chain"]]
         red = [n for n in tree["redeclare"] if n in names]
